@@ -36,6 +36,7 @@ import DiskfsModel.Proofs.IsoRRRecord
 import DiskfsModel.Proofs.IsoSvd
 import DiskfsModel.Proofs.IsoComposeLimits
 import DiskfsModel.Proofs.IsoWalk
+import DiskfsModel.Proofs.IsoDirNames
 import DiskfsModel.Generated.Iso
 namespace Diskfs.Iso.C06
 
@@ -127,6 +128,22 @@ theorem facts_agree_constants :
     Generated.Iso.dataStartSector = dataStartSector ∧ Generated.Iso.truncBounds = [1, 3, 8] ∧
     Generated.Iso.digitLoopBounds = [8] := by decide
 
+/-- DIRECTORIES WITH DOTTED NAMES.  A directory enters collision resolution - and is written into its
+    record and the path table (`isoIdent … true`) - under its short name alone, as
+    `finalizeFileInfoFromFile` / `Name()` have it: what follows the first dot of the host name plays
+    no part.  Sibling directories `b.t1`, `b.t2` and `b` therefore have the SAME collision key, so
+    they are one group of `resolveAll` and `resolve_injective` separates them (`conf.d` / `conf.bak`
+    end as CONF0 / CONF1, instance below); the engine's iso.walkid ties the real walkTree + Name()
+    to exactly this rule. -/
+theorem dir_dotted_same_key (b t1 t2 : Str) (hb : 46 ∉ b) :
+    entryName (b ++ 46 :: t1) true = entryName (b ++ 46 :: t2) true ∧
+    entryName (b ++ 46 :: t1) true = entryName b true ∧
+    (entryName (b ++ 46 :: t1) true).2 = [] ∧
+    isoIdent (entryName (b ++ 46 :: t1) true) true = (clean b).take 8 := by
+  refine ⟨entryName_dir_tail b t1 t2 hb, entryName_dir_base b t1 hb, entryName_dir_noext _, ?_⟩
+  rw [entryName_dir_base b t1 hb]
+  simp only [isoIdent, if_true, entryName, shortExt, splitDot, takeWhile_no_dot _ hb]
+
 /-! non-vacuity: concrete instances meeting the hypotheses -/
 -- three entries that all truncate to LONGFILE.TXT plus one that already occupies the first candidate
 private def exL : Str := [76, 79, 78, 71, 70, 73, 76, 69]   -- LONGFILE
@@ -135,6 +152,11 @@ private def ex : Nat → Nm := fun i => if i < 3 then (exL, exT) else ([76, 79, 
 example : ((resolveAll 4 ex [ex 0] ex).map fun f => (List.range 4).map f) =
     some [([76, 79, 78, 71, 70, 73, 76, 49], exT), ([76, 79, 78, 71, 70, 73, 76, 50], exT),
           ([76, 79, 78, 71, 70, 73, 76, 51], exT), ([76, 79, 78, 71, 70, 73, 76, 48], exT)] := by decide +kernel
+-- conf.d/ conf.bak/ (directories), conf, conf.txt (files): the two directories and `conf` are one group
+private def exDots : Nat → Nm := fun i =>
+  entryName ([[99, 111, 110, 102, 46, 100], [99, 111, 110, 102, 46, 98, 97, 107], [99, 111, 110, 102], [99, 111, 110, 102, 46, 116, 120, 116]].getD i []) (i < 2)
+example : ((resolveAll 4 exDots [exDots 0] exDots).map fun f => (List.range 4).map fun i => isoIdent (f i) (i < 2)) =
+    some [[67, 79, 78, 70, 48], [67, 79, 78, 70, 49], [67, 79, 78, 70, 50, 46, 59, 49], [67, 79, 78, 70, 46, 84, 88, 84, 59, 49]] := by decide +kernel
 example : shortExt [114, 101, 97, 100, 109, 101, 45, 102, 105, 114, 115, 116, 46, 109, 97, 114, 107, 100, 111, 119, 110] =
     ([82, 69, 65, 68, 77, 69, 95, 70], [77, 65, 82]) := by decide   -- readme-first.markdown → README_F.MAR
 example : (({ extraVD := 1, dirBlocks := [1, 2], ptBlocks := 1, fileBlocks := [0, 3, 1], joliet := true,
